@@ -12,18 +12,25 @@ Executable specification of C18, read off the English statement (nothing here lo
       encoding exactly the requested attributes,
   (H) with each highlighted group followed by a reset (ESC [ 0 m).
 
-READING DECISION (kept visible on purpose). A variable counts as "set" in the statement's sense
-when it is PRESENT AND NOT THE STRING "0" — the same reading for all three variables. So
-`NO_COLOR=0` does not disable colour, `CLICOLOR_FORCE=0` does not force it, and `CLICOLOR=0` is
-the literal "off" form the statement names. (The informal NO_COLOR convention "any value, even 0,
-disables" is *not* the reading used here.)
+READING DECISIONS (assumptions of this specification, also listed in props.d/C18.json; the
+theorems `C18_reading_gap*` count the rows on which they matter):
+ R1  A variable counts as "set" in the statement's sense when it is PRESENT AND NOT THE STRING "0"
+     — the same reading for all three variables. So `NO_COLOR=0` does not disable colour,
+     `CLICOLOR_FORCE=0` does not force it, and `CLICOLOR=0` is the literal "off" form the statement
+     names. The other common reading (no-color.org: NO_COLOR present with ANY value disables) is
+     `colourEnabledStd`; the two differ on 10 of the 54 (environment, terminal?) rows of the
+     property's quantifier, all with `NO_COLOR=0`.
+ R2  Outside the quantifier: a value that is not valid Unicode counts as NOT set (what
+     `std::env::var` makes of it); the empty string, `00`, `false`, … count as set.
+ R3  The statement is read as conditional on the stream accepting the bytes: after a failed write
+     nothing further can be required of the stream (see `failedStreamVerdict`).
 -/
 namespace Log4rs.Console.Spec
 open Log4rs Log4rs.Console
 
 /-! ### (C) colour policy -/
 
-/-- "set" = present and not "0" -/
+/-- R1/R2: "set" = present, valid Unicode, and not "0" -/
 def isSet (v : EnvVal) : Bool := v == .one
 
 /-- the statement's cascade, clause by clause -/
@@ -37,10 +44,48 @@ def colourEnabled (e : Env) (isatty : Bool) : Bool :=
 def colourEnabledFormula (e : Env) (isatty : Bool) : Bool :=
   !isSet e.noColor && (isSet e.clicolorForce || (e.clicolor != .zero && isatty))
 
+/-- the OTHER reading of "under NO_COLOR" (no-color.org): present, whatever the value. Not the
+reading of this specification (R1); kept so that the difference is a theorem. -/
+def colourEnabledStd (e : Env) (isatty : Bool) : Bool :=
+  if e.noColor != .unset then false
+  else if isSet e.clicolorForce then true
+  else if e.clicolor == .zero then false
+  else isatty
+
+/-- The same rule once more, as a TABLE written out by hand from the statement, in the order of
+`allEnvs` (NO_COLOR outermost, then CLICOLOR, then CLICOLOR_FORCE; values unset, "0", "1") with
+terminal before pipe. One line per (NO_COLOR, CLICOLOR); the three pairs are CLICOLOR_FORCE =
+unset, "0", "1"; a pair is (on a terminal, on a pipe). -/
+def colourTable : List Bool :=
+  [ -- NO_COLOR unset
+    true, false,   true, false,   true, true,      -- CLICOLOR unset: terminals only, unless forced
+    false, false,  false, false,  true, true,      -- CLICOLOR=0: never, unless forced
+    true, false,   true, false,   true, true,      -- CLICOLOR=1
+    -- NO_COLOR=0 (does not count as set, R1): as above
+    true, false,   true, false,   true, true,
+    false, false,  false, false,  true, true,
+    true, false,   true, false,   true, true,
+    -- NO_COLOR=1: never
+    false, false,  false, false,  false, false,
+    false, false,  false, false,  false, false,
+    false, false,  false, false,  false, false ]
+
+/-- the rows of the table: the 27 environments × (terminal, pipe) -/
+def colourRows : List (Env × Bool) :=
+  allEnvs.flatMap fun e => [(e, true), (e, false)]
+
 /-! ### (W) who writes -/
 
 /-- tty_only ⇒ writes iff the target is a terminal; unrestricted ⇒ always. No colour input. -/
 def shouldWrite (isatty ttyOnly : Bool) : Bool := isatty || !ttyOnly
+
+/-- clause (W) as a table written out from the statement: (target is a terminal, tty_only) ↦ writes.
+No environment column: "independent of colour settings". -/
+def writeTable : List ((Bool × Bool) × Bool) :=
+  [ ((true,  true),  true),    -- restricted, terminal: writes
+    ((false, true),  false),   -- restricted, no terminal: silent
+    ((true,  false), true),    -- unrestricted: always writes
+    ((false, false), true) ]
 
 /-! ### (S) the SGR grammar: printer and (independent) strict parser -/
 
@@ -174,7 +219,7 @@ def expectedAppend (s : Setup) (level : Nat) (cs : Chunks) : Streams :=
     Streams.on s.target (specEncode (colourEnabled s.env s.targetIsatty) level cs)
   else {}
 
-/-- F2's input class: a restricted appender whose colour decision differs from "is a terminal"
+/-- the input class of the repaired tty_only defect: a restricted appender whose colour decision differs from "is a terminal"
 (colour suppressed on a terminal, or forced on a pipe) -/
 def f2Region (s : Setup) : Bool :=
   s.ttyOnly && (colourEnabled s.env s.targetIsatty != s.targetIsatty)
@@ -227,16 +272,28 @@ Clause (W) and (C) speak about "a console appender" and "its target stream": eac
 judged by ITS OWN target's terminal status, the environment and its own tty_only flag. Other
 appenders, the order in which they were built and the order of the builder calls have no say. -/
 
+/-- what an appender's pattern must produce, as tokens, for (colour?, level) -/
+abbrev Want := Bool → Nat → List Tok
+
+/-- patterns without width parameters -/
+def chunksWant (cs : Nat → Chunks) : Want := fun colour l => specToks colour l (cs l)
+
 /-- what one appender of a plan must contribute after one record per level -/
-def expectedItem (g : Global) (it : PlanItem) (levels : List Nat) (cs : Nat → Chunks) : Streams :=
+def expectedItemW (g : Global) (it : PlanItem) (levels : List Nat) (want : Want) : Streams :=
   if shouldWrite (g.isatty it.target) it.ttyOnly then
     Streams.on it.target
-      (levels.flatMap fun l => specEncode (colourEnabled g.env (g.isatty it.target)) l (cs l))
+      (levels.flatMap fun l => render (want (colourEnabled g.env (g.isatty it.target)) l))
   else {}
 
 /-- what must be on stdout / stderr after the whole plan: the appenders' contributions in order -/
+def expectedPlanW (g : Global) (items : List PlanItem) (levels : List Nat) (want : Want) : Streams :=
+  items.foldr (fun it acc => (expectedItemW g it levels want).append acc) {}
+
+def expectedItem (g : Global) (it : PlanItem) (levels : List Nat) (cs : Nat → Chunks) : Streams :=
+  expectedItemW g it levels (chunksWant cs)
+
 def expectedPlan (g : Global) (items : List PlanItem) (levels : List Nat) (cs : Nat → Chunks) : Streams :=
-  items.foldr (fun it acc => (expectedItem g it levels cs).append acc) {}
+  expectedPlanW g items levels (chunksWant cs)
 
 def itemF2Region (g : Global) (it : PlanItem) : Bool :=
   it.ttyOnly && (colourEnabled g.env (g.isatty it.target) != g.isatty it.target)
@@ -247,21 +304,21 @@ def otherTarget : Target → Target
 
 /-- the plain text stream `t` carries when "is this appender's target a terminal" is answered by
 `answer` (the statement: `fun it => g.isatty it.target`) -/
-def streamTextIf (_g : Global) (items : List PlanItem) (levels : List Nat) (cs : Nat → Chunks)
+def streamTextIf (_g : Global) (items : List PlanItem) (levels : List Nat) (want : Want)
     (answer : PlanItem → Bool) (t : Target) : Bytes :=
   (items.filter fun it => it.target == t && shouldWrite (answer it) it.ttyOnly).flatMap fun _ =>
-    levels.flatMap fun l => plainText (cs l)
+    levels.flatMap fun l => literalBytes (want false l)
 
 /-- the tokens stream `t` carries when the colour decision for it is `colour` -/
-def streamToksIf (g : Global) (items : List PlanItem) (levels : List Nat) (cs : Nat → Chunks)
+def streamToksIf (g : Global) (items : List PlanItem) (levels : List Nat) (want : Want)
     (colour : Bool) (t : Target) : List Tok :=
   (items.filter fun it => it.target == t && shouldWrite (g.isatty t) it.ttyOnly).flatMap fun _ =>
-    levels.flatMap fun l => specToks colour l (cs l)
+    levels.flatMap fun l => want colour l
 
 /-- the tokens one stream must carry -/
-def expectedStreamToks (g : Global) (items : List PlanItem) (levels : List Nat) (cs : Nat → Chunks)
+def expectedStreamToks (g : Global) (items : List PlanItem) (levels : List Nat) (want : Want)
     (t : Target) : List Tok :=
-  streamToksIf g items levels cs (colourEnabled g.env (g.isatty t)) t
+  streamToksIf g items levels want (colourEnabled g.env (g.isatty t)) t
 
 /-- does the plan put appenders on both streams while the streams differ in terminal status and
 the colour decision is left to the terminal test? -/
@@ -270,11 +327,11 @@ def leakRegion (g : Global) (items : List PlanItem) : Bool :=
     (colourEnabled g.env true != colourEnabled g.env false)
 
 /-- signature of a (W) failure: which wrong question do the observed texts answer? -/
-def wSig (g : Global) (items : List PlanItem) (levels : List Nat) (cs : Nat → Chunks)
+def wSig (g : Global) (items : List PlanItem) (levels : List Nat) (want : Want)
     (textOut textErr : Bytes) : String :=
   let agrees (answer : PlanItem → Bool) : Bool :=
-    textOut == streamTextIf g items levels cs answer .stdout &&
-    textErr == streamTextIf g items levels cs answer .stderr
+    textOut == streamTextIf g items levels want answer .stdout &&
+    textErr == streamTextIf g items levels want answer .stderr
   let ownOk := agrees (fun it => g.isatty it.target)
   if !ownOk && (agrees (fun it => g.isatty (otherTarget it.target)) ||
       agrees (fun _ => g.ttyOut) || agrees (fun _ => g.ttyErr)) then "C18/tty-only-wrong-stream"
@@ -284,21 +341,24 @@ def wSig (g : Global) (items : List PlanItem) (levels : List Nat) (cs : Nat → 
   else "C18/tty-only"
 
 /-- colour clause for one stream whose text is right -/
-def planColourVerdict (g : Global) (items : List PlanItem) (levels : List Nat) (cs : Nat → Chunks)
+def planColourVerdict (g : Global) (items : List PlanItem) (levels : List Nat) (want : Want)
     (t : Target) (toks : List Tok) : Verdict :=
   let colour := colourEnabled g.env (g.isatty t)
-  if toks == expectedStreamToks g items levels cs t then .ok
+  if toks == expectedStreamToks g items levels want t then .ok
   else
     let clause :=
       if !colour && !(sgrToks toks).isEmpty then ("C: escape sequences although colour is disabled for this stream", "C18/console-escapes-while-disabled")
       else if colour && (sgrToks toks).isEmpty then ("C: no escape sequences although colour is enabled for this stream", "C18/console-no-escapes-while-enabled")
       else ("H: styles/resets differ from one style per highlighted group followed by a reset", "C18/console-highlight")
     let otherColour := colourEnabled g.env (g.isatty (otherTarget t))
-    let leaks := (otherColour != colour && toks == streamToksIf g items levels cs otherColour t) || leakRegion g items
+    -- the other stream's colour decision explains the observation, or (by input class) colour is
+    -- present/absent against the rule while the two streams differ
+    let leaks := (otherColour != colour && toks == streamToksIf g items levels want otherColour t) ||
+      (leakRegion g items && clause.2 != "C18/console-highlight")
     .fail clause.1 (if leaks then "C18/colour-decision-leaks-between-streams" else clause.2)
 
 /-- the child process: exit code, stdout bytes, stderr bytes -/
-def planVerdict (g : Global) (items : List PlanItem) (levels : List Nat) (cs : Nat → Chunks)
+def planVerdict (g : Global) (items : List PlanItem) (levels : List Nat) (want : Want)
     (rc : Nat) (out err : Bytes) : Verdict :=
   if rc != 0 then .fail "an appender failed or panicked" "C18/console-failed"
   else match scan out, scan err with
@@ -306,11 +366,11 @@ def planVerdict (g : Global) (items : List PlanItem) (levels : List Nat) (cs : N
       let own : PlanItem → Bool := fun it => g.isatty it.target
       let textOut := literalBytes toksOut
       let textErr := literalBytes toksErr
-      if textOut != streamTextIf g items levels cs own .stdout || textErr != streamTextIf g items levels cs own .stderr then
+      if textOut != streamTextIf g items levels want own .stdout || textErr != streamTextIf g items levels want own .stderr then
         .fail "W: a stream does not carry the text of exactly the appenders that target it and must write (a tty_only appender wrote to a non-terminal, an appender that must write is silent, or text went to the other stream)"
-          (wSig g items levels cs textOut textErr)
-      else match planColourVerdict g items levels cs .stdout toksOut with
-        | .ok => planColourVerdict g items levels cs .stderr toksErr
+          (wSig g items levels want textOut textErr)
+      else match planColourVerdict g items levels want .stdout toksOut with
+        | .ok => planColourVerdict g items levels want .stderr toksErr
         | v => v
     | _, _ => .fail "S: the output contains an escape sequence outside the SGR grammar" "C18/console-malformed-escape"
 
